@@ -1,6 +1,6 @@
 import RimeModel.C18.PathThms
 import RimeModel.C18.ValueThms
-import RimeModel.C18.Utf8Thms
+import RimeModel.C18.BytesThms
 /-!
 # C18 — config trees survive save and load; getters read back what setters wrote
 
@@ -174,6 +174,110 @@ theorem sanitize_id_on_text (s : Bytes) (h : IsText s) : sanitize s = s := sanit
 in every style, and a byte string that is not UTF-8 likewise. -/
 example : sanitize [0xEF, 0xBF, 0xBE] = [0xEF, 0xBF, 0xBD] ∧ sanitize [0xFF] = [0xEF, 0xBF, 0xBD] ∧
     isTextB [0xEF, 0xBF, 0xBE] = false := by decide
+
+/-! ## save and load -/
+
+/-- **scalar round trip, plain style.** A non-empty run of `[A-Za-z0-9_.]` bytes followed by nothing or by a
+byte outside that class is read back as itself (and flagged plain). -/
+theorem scalar_roundtrip_plain (s rest : Bytes) (hne : s ≠ []) (hs : s.all isPlainSafe = true) (hr : RestOK rest) :
+    parseInline (s ++ rest) = some (s, true, rest) :=
+  parseInline_plain s rest hne hs hr
+
+/-- **scalar round trip, double-quoted style**: `unescape_escape` above, for every text. -/
+theorem scalar_roundtrip_dq (s rest : Bytes) (h : IsText s) : parseInline (emitDQ s ++ rest) = some (s, false, rest) :=
+  parseInline_emitDQ s rest h
+
+/-- **scalar round trip, literal block style.** A text the block can carry (`literalSafe`: ends in exactly one
+LF, no C0 control character other than LF/TAB, first non-empty line not starting with a space), written as
+yaml-cpp writes literal blocks and read as `ScanScalar` reads them (indentation auto-detected, clip chomping),
+comes back unchanged — whether the block is the last thing in the document or not. -/
+theorem scalar_roundtrip_literal (s : Bytes) (atEnd : Bool) (ht : IsText s) (hs : literalSafe s = true) :
+    readLiteral (indentLines 2 (literalPieces s)) atEnd = some s :=
+  readLiteral_literalPieces s atEnd ht hs
+
+/-- **parse_emit** (full statement, no `_partial`): for either `EmitScalar` policy and EVERY tree of the domain —
+any shape, any depth (block layout above the flow depth, flow layout with yaml-cpp's indentation padding
+below), null entries anywhere, maps key-sorted, every scalar a text that the chosen style can carry, every key
+a text written as a simple key — loading the saved document gives the tree with its null-valued map entries
+and null list elements removed. -/
+theorem parse_emit (pol : LitPolicy) (t : Cfg) (hok : TreeOK pol t) (hroot : RootOK pol t) :
+    parseDoc (emitDoc pol t) = some t.norm :=
+  parseDoc_emitDoc pol t hok hroot
+
+/-- Under the repaired policy the scalar domain is ALL text: nothing is excluded for its line structure, its
+control characters or its leading spaces. -/
+theorem scalarOK_safe (s : Bytes) (h : IsText s) : ScalarOK .safe s := by
+  refine ⟨h, ?_⟩
+  intro hw
+  simp [wantsLiteral] at hw
+  exact hw.2
+
+/-- Under the repaired policy no root is excluded either (`...` is double-quoted). -/
+theorem root_unrestricted_safe (t : Cfg) : RootOK .safe t := rootOK_safe t
+
+/-- **the policy of the working tree excludes no text.** For the `EmitScalar` the translator found in the
+current source, every text scalar is in the domain of `parse_emit` and every root is admissible.  On a tree
+with the legacy `EmitScalar` this statement is false and does not build (fails closed). -/
+theorem current_policy_total : ∀ pol, currentPolicy = some pol →
+    (∀ s, IsText s → ScalarOK pol s) ∧ (∀ t, RootOK pol t) := by
+  intro pol h
+  have hc : currentPolicy = some .safe := by decide
+  rw [hc] at h
+  cases h
+  exact ⟨scalarOK_safe, rootOK_safe⟩
+
+/-- the lines-level form of `parse_emit` (what the block/flow induction proves; `parse_emit` adds that no
+emitted line contains a line break, so splitting the document returns the lines). -/
+theorem parse_emit_lines (pol : LitPolicy) (t : Cfg) (hok : TreeOK pol t) (hroot : RootOK pol t) :
+    parseLines (emitDocLines pol t) = some t.norm :=
+  lines_rt pol t hok hroot
+
+/-! ### the defects of the pinned tree (legacy `EmitScalar`), kept as history: the model reproduces each
+failure on its minimal witness, and the repaired policy round-trips the same witness -/
+
+/-- F1 — multi-line text whose first non-empty line starts with a space: as a map value the saved document
+does not load when a later line is indented less (the model's strict parser gives up exactly where yaml-cpp
+throws) and silently loses the spaces otherwise. -/
+theorem old_literal_leading_space_counterexample :
+    parseDoc (emitDoc .legacy (.map [([107], .scalar [32, 97, 10, 98, 10]), ([122], .scalar [49])])) = none ∧
+    parseDoc (emitDoc .legacy (.map [([107], .scalar [32, 97, 10]), ([122], .scalar [49])])) =
+      some (.map [([107], .scalar [97, 10]), ([122], .scalar [49])]) ∧
+    parseDoc (emitDoc .legacy (.scalar [10, 32, 97, 10])) = some (.scalar [10, 97, 10]) ∧
+    parseDoc (emitDoc .safe (.map [([107], .scalar [32, 97, 10, 98, 10]), ([122], .scalar [49])])) =
+      some (.map [([107], .scalar [32, 97, 10, 98, 10]), ([122], .scalar [49])]) := by
+  refine ⟨by rfl, by rfl, by rfl, by rfl⟩
+
+/-- F2 — a lone CR sends the text to a literal block; when the block is not last the text gains a LF, and a
+CR in front of the block's own line break is swallowed. -/
+theorem old_literal_cr_counterexample :
+    parseDoc (emitDoc .legacy (.map [([107], .scalar [97, 13, 98]), ([122], .scalar [49])])) =
+      some (.map [([107], .scalar [97, 13, 98, 10]), ([122], .scalar [49])]) ∧
+    parseDoc (emitDoc .legacy (.map [([107], .scalar [13]), ([122], .scalar [49])])) =
+      some (.map [([107], .scalar []), ([122], .scalar [49])]) ∧
+    parseDoc (emitDoc .safe (.map [([107], .scalar [97, 13, 98]), ([122], .scalar [49])])) =
+      some (.map [([107], .scalar [97, 13, 98]), ([122], .scalar [49])]) := by
+  refine ⟨by rfl, by rfl, by rfl⟩
+
+/-- F3 — NUL / EOT inside multi-line text are written raw into the block, where yaml-cpp's reader takes them
+for an escape character / the end of input. -/
+theorem old_literal_control_char_counterexample :
+    parseDoc (emitDoc .legacy (.scalar [0, 10])) = none ∧ parseDoc (emitDoc .legacy (.scalar [4, 10])) = none ∧
+    parseDoc (emitDoc .safe (.scalar [0, 10])) = some (.scalar [0, 10]) := by
+  refine ⟨by rfl, by rfl, by rfl⟩
+
+/-- F4 — a root scalar `...` written plain is a document end marker. -/
+theorem old_root_document_end_marker_counterexample :
+    parseDoc (emitDoc .legacy (.scalar threeDots)) = some .null ∧
+    parseDoc (emitDoc .safe (.scalar threeDots)) = some (.scalar threeDots) := by
+  refine ⟨by rfl, by rfl⟩
+
+/-- non-vacuity of `parse_emit`: a concrete tree of the domain with every layout in it (block map, block
+sequence, a map inside a sequence entry, a literal block that is not last, flow collections with a null
+element, an empty collection, a double-quoted and a plain scalar) -/
+example : parseDoc (emitDoc .safe (.map [([97], .list [.map [([113], .scalar [120, 10, 121, 10]), ([122], .scalar [49])],
+      .list [.list [.null, .scalar [], .map []]]]), ([98], .scalar [97, 32, 98])])) =
+    some (.map [([97], .list [.map [([113], .scalar [120, 10, 121, 10]), ([122], .scalar [49])],
+      .list [.list [.scalar [], .map []]]]), ([98], .scalar [97, 32, 98])]) := by rfl
 
 /-! non-vacuity of the path theorems: a concrete tree, an `@before` insertion and a stable key -/
 example : Stable [64, 55] := ⟨7, fun _ => rfl⟩
